@@ -212,13 +212,14 @@ def h08d(c):
         market.blotter[o.id] = o
         o.status = OrderStatus.EXECUTION_COMPLETE
         results = [c.choose("result%d" % k, ["WINNER", "LOSER"]) for k in range(2)]
-        c.tag("results", "/".join(results))
+        extra = [c.choose("other_dead_heating_winners%d" % k, [0, 1]) if results[k] == "WINNER" else 0 for k in range(2)]
+        c.tag("results", "/".join("%s+%d" % (r, e) for r, e in zip(results, extra)))
         for k, res in enumerate(results):
-            bk = _close_book(c, {(1, 0): res}, "WIN", None, 0)
+            bk = _close_book(c, {(1, 0): res}, "WIN", None, extra[k])
             bk.version = 10 + k
             with c.guard("close-%d" % k):
                 fl._process_market_books(events.MarketBookEvent([bk]))
-            orc, _ = oracle_profit(c, d, res, "WIN", None, 1, None)
+            orc, _ = oracle_profit(c, d, res, "WIN", None, 1 + extra[k], None)
             c.ob("close%d.profit-follows-this-result" % k, c.close(o.profit, orc, HALF))
             cleared = [e for e in log if e.EVENT_TYPE == EventType.CLEARED_MARKETS]
             c.ob("close%d.summary-logged" % k, len(cleared) == k + 1)
